@@ -28,6 +28,9 @@ func c11(c *Ctx) {
 	ruleAnyFixedParks(c, "C11.R5")
 	c11R6(c)
 	c11R7(c)
+	// the webhook derives each requested network's entry (allocation type, release strategy) on its own:
+	// a record's retention policy is the one its network asked for
+	itemIndependent(c, "C11.R8", [][3]string{{"pkg/controller/webhook", "getPodNetworkRequests", "one network entry (with its own allocation type) per requested network"}})
 	// shared: the collector's verdict is published with the optimistic lock (C10.R7 / C10.R8) — a
 	// record rebound meanwhile is not reaped on a stale reading
 	c10R7(c)
